@@ -40,6 +40,7 @@ PROPS = {
         subs=[
             rapid("flow", "TestC01Flow", 1500, 8000),
             rapid("all-paths", "TestC01AllPaths", 120, 600),
+            enum("long-silent-runs", "TestC01LongSilentRuns"),
             fuzz("flow", "FuzzC01Flow", 60),
         ],
     ),
